@@ -360,7 +360,9 @@ def nontrivial_signature(r):
 def check(run):
     import time
     t0 = time.time()
-    run.proof_stage()
+    # the ties to definitions regenerated from the Go source are separate proof files, one per regenerated item: an item a
+    # translator cannot determine breaks only the obligations that read it
+    run.proof_stage(extra_modules=['theories/Props/C08_schema_%s.v' % x for x in ('keys', 'json', 'account', 'count', 'consts')])
     if not run.quick():
         run.coqchk_stage()
     vlib.log('[C08] proof stage %.1fs' % (time.time() - t0))
